@@ -5,7 +5,7 @@ from .harvest import FARM, MAN
 
 LEVEL = "other"
 CLAIM = {
-    "text": ("Only the naming and table clauses of C14 are structural and decided: (R1) the file name used is the given name with the engine's extension added when it has none, consistently for saving, loading, merging and deleting "
+    "text": ("Only the naming and table clauses of C14 are structural and decided: (R1) the file name used is the given name with the engine's extension added when it has none, consistently for saving, loading, merging and deleting (a Harvester method that remembers the normalised name in an attribute and reads it back is reported: data_name is a plain attribute and can be reassigned) "
              "(every file-system call on the dataset file uses the name normalised with the engine of the I/O; save_ds / load_ds normalise before every use); (R2) the extension table, save_ds and load_ds agree on the engines, extensions do not "
              "shadow one another, auto_add_extension adds exactly the engine's extension iff none is present, and the documented attribute rewriting is exactly None/True/False by identity on netCDF engines only; (R3) on the netCDF branch, complex data reaches Dataset.to_netcdf with invalid_netcdf=True (the option without which h5netcdf refuses complex dtypes), set unconditionally or on the complex branch of a complex-data test, before the call. "
              "NOT decided -- the bulk of the property: round-trip identity of values, dtypes, NaNs, complex data, lazy vs eager loading are facts about h5netcdf / joblib / dask on runtime data."),
